@@ -12,11 +12,24 @@ PSIZE_RX = r"api::types::Types::payload_size$"
 
 
 def cache_methods(ctx):
-    out = []
+    """the &mut methods of PayloadCache that something outside PayloadCache calls: private helpers used only by other methods of the
+    type are analysed as part of their callers (they are inlined there) - alone, a helper like `release(payload)` is unbalanced by design"""
+    cand = []
     for b in ctx.facts.doc["bodies"]:
         if "payload_cache::PayloadCache<T>" in b.get("impl_self", "") and not b.get("impl_trait") \
                 and re.search(r"fn\(&'a mut ", b.get("sig", "")):
-            out.append(b["key"])
+            cand.append(b["key"])
+    inside = {b["key"] for b in ctx.facts.doc["bodies"]
+              if "payload_cache::PayloadCache<T>" in (b.get("impl_self") or "") or re.search(r"payload_cache::PayloadCache(<T>>|::<T>)::", b["key"])}
+    callers = {}
+    for b in ctx.facts.doc["bodies"]:
+        for blk in b["blocks"]:
+            t = blk["term"]
+            if not blk["cleanup"] and t["k"] == "call":
+                k = t["callee"].get("rkey") or t["callee"].get("key")
+                if k:
+                    callers.setdefault(k, set()).add(b["key"])
+    out = [k for k in cand if not (callers.get(k) and callers[k] <= inside)]
     return sorted(out)
 
 
@@ -307,11 +320,11 @@ def run(ctx, rep):
     rep.rule("R15.5", "stat() reads count, size, limits and boundary under one read guard")
     rep.rule("R15.6", "every eviction is preceded by `first key <= last_evictable` established since the last map mutation")
     ms = cache_methods(ctx)
-    rep.floor("R15.1", "&mut methods of PayloadCache", len(ms), 7)
+    rep.floor("R15.1", "&mut methods of PayloadCache called from outside the type", len(ms), 4)
     total_mut = 0
     for key in ms:
         total_mut += balance(ctx, rep, key)
-    rep.floor("R15.1", "map mutators analysed", total_mut, 6)
+    rep.floor("R15.1", "map mutators analysed", total_mut, 4)
     # eviction entries: the public-in-crate operations that evict on their own (not on behalf of truncate/purge/clear)
     ins = [k for k in ms if re.search(r"::insert$", k)]
     drn = [k for k in ms if re.search(r"::drain_evictable$", k)]
